@@ -129,7 +129,7 @@ pub fn run(ctx: &Arc<Ctx>) {
     refmodels::selftest::run(&["sm3", "sm2"]).unwrap_or_else(|e| ctx.machinery_error(format!("reference self-test failed: {}", e)));
     let pr = sm2::params();
     let (n, p) = (pr.n.clone(), pr.p.clone());
-    ctx.set_rule("base ciphertexts (message lengths {1,17,32,33}, thorough 1..=40, x 2 orders x 2 C1 encodings, made by the reference encryptor): every single-bit flip of the whole ciphertext; C3 with several bytes changed so that the differences cancel (equal XOR differences, sums of 0 mod 256) or with every byte inverted; every truncation length; C1 replaced by (x,y+-1), (x+-1,y), (0,0), points on y^2=x^3+ax+b' (incl. an order-2 point) and points of the quadratic twist (x, rhs^((p+1)/4)) and off-curve points with x^3+ax+b = y or 2y for y in {R^-1, 2R^-1, 2} (cubic solved by the reference), with C2,C3 completed correctly for that point (by the reference and, separately, by the library's own arithmetic on the raw coordinates), compressed x that is a non-residue, x+p aliases of an on-curve point with tiny x, compressed non-residue x with the body completed for the bogus root, a ciphertext whose KDF output is all zero, C1 of another ciphertext; C2/C3 swapped between two ciphertexts; the C1 tag byte replaced by every other value; undecodable / off-curve C1 with the body completed for a fallback point (the recipient's public key, G, zero coordinates). The ASN.1 form through decrypt_asn1 with both values of its compressed flag: every single-bit flip of C1.x, C1.y, C3 and C2 re-encoded as a well-formed GM/T 0009 document, y negated, y + p, x / y + k 2^256, off-curve (x, y) with the original body and with the body completed for the foreign point, empty and truncated C2. Oracle: result must be Err — never Ok(anything), never a panic; the untouched ciphertext must decrypt.");
+    ctx.set_rule("base ciphertexts (message lengths {1,17,32,33}, thorough 1..=40, x 2 orders x 2 C1 encodings, made by the reference encryptor): every single-bit flip of the whole ciphertext; C3 with several bytes changed so that the differences cancel (equal XOR differences, sums of 0 mod 256) or with every byte inverted; every truncation length; C1 replaced by (x,y+-1), (x+-1,y), (0,0), (x, y') with y'^2 differing from the right-hand side in chosen bits of the stored form (upper / lower half of a limb, single limbs), points on y^2=x^3+ax+b' (incl. an order-2 point) and points of the quadratic twist (x, rhs^((p+1)/4)) and off-curve points with x^3+ax+b = y or 2y for y in {R^-1, 2R^-1, 2} (cubic solved by the reference), with C2,C3 completed correctly for that point (by the reference and, separately, by the library's own arithmetic on the raw coordinates), compressed x that is a non-residue, x+p aliases of an on-curve point with tiny x, compressed non-residue x with the body completed for the bogus root, a ciphertext whose KDF output is all zero, C1 of another ciphertext; C2/C3 swapped between two ciphertexts; the C1 tag byte replaced by every other value; undecodable / off-curve C1 with the body completed for a fallback point (the recipient's public key, G, zero coordinates). The ASN.1 form through decrypt_asn1 with both values of its compressed flag: every single-bit flip of C1.x, C1.y, C3 and C2 re-encoded as a well-formed GM/T 0009 document, y negated, y + p, x / y + k 2^256, off-curve (x, y) with the original body and with the body completed for the foreign point, empty and truncated C2. Oracle: result must be Err — never Ok(anything), never a panic; the untouched ciphertext must decrypt.");
     let mut g = SplitMix::new(ctx.seed, "c06");
     let lens: Vec<usize> = ctx.tier.pick(vec![1, 17, 32, 33], (1..=40).collect());
     let d = hb(ANNEX_D);
@@ -270,6 +270,47 @@ pub fn run(ctx: &Arc<Ctx>) {
                                     if let Some((c2, c3)) = complete_with_library_arithmetic(dd, &fpt, &msg) {
                                         cases.push(mk(raw_encode(&unc(xr, &yv), &c2, &c3, c1c3c2), None, &format!("offcurve-rhs(x)={}/y={}/completed-with-library-arithmetic", rl, yl)));
                                     }
+                                }
+                            }
+                        }
+                    }
+                    // off-curve points whose y^2 differs from x^3 + a x + b in a few chosen bits of the STORED (Montgomery) form only:
+                    // in the upper half of one or two 64-bit limbs, in the lower half, in the top limb, in the bottom limb - a
+                    // comparison that drops part of every limb, or some limb, accepts one of them
+                    {
+                        let r256: BigUint = BigUint::one() << 256usize;
+                        let rinv = r256.modpow(&(&p - 2u32), &p);
+                        let rhs = (&x * &x * &x + &pr.a * &x + &pr.b) % &p;
+                        let stored = (&rhs * &r256) % &p;
+                        let masks: [(&str, BigUint); 7] = [
+                            ("bit40", BigUint::one() << 40usize),
+                            ("bits40+100", (BigUint::one() << 40usize) + (BigUint::one() << 100usize)),
+                            ("bit5", BigUint::one() << 5usize),
+                            ("bits5+70", (BigUint::one() << 5usize) + (BigUint::one() << 70usize)),
+                            ("bit200", BigUint::one() << 200usize),
+                            ("bit130", BigUint::one() << 130usize),
+                            ("bit63", BigUint::one() << 63usize),
+                        ];
+                        for (ml, mask) in masks {
+                            // walk to the next stored value of this shape that is a field element and a square
+                            for step in 0..16u32 {
+                                let cand_stored = &stored ^ (&mask << step as usize);
+                                if cand_stored >= p {
+                                    continue;
+                                }
+                                let y2 = (&cand_stored * &rinv) % &p;
+                                if let Some(yv) = sm2::sqrt_mod_p(&y2) {
+                                    let fpt: Pt = Some((x.clone(), yv.clone()));
+                                    if sm2::on_curve(&fpt) {
+                                        continue;
+                                    }
+                                    if let Some((c2, c3)) = complete(dd, &fpt, &msg) {
+                                        cases.push(mk(raw_encode(&unc(&x, &yv), &c2, &c3, c1c3c2), None, &format!("offcurve-y^2-differs-in-stored-{}/invalid-curve-completed", ml)));
+                                    }
+                                    if let Some((c2, c3)) = complete_with_library_arithmetic(dd, &fpt, &msg) {
+                                        cases.push(mk(raw_encode(&unc(&x, &yv), &c2, &c3, c1c3c2), None, &format!("offcurve-y^2-differs-in-stored-{}/completed-with-library-arithmetic", ml)));
+                                    }
+                                    break;
                                 }
                             }
                         }
